@@ -30,6 +30,10 @@ func runC04(c *an.Ctx) {
 	r04g(c)
 	r04h(c)
 	r04i(c)
+	// round 7
+	r04j(c)
+	r04k(c)
+	r04l(c)
 }
 
 func r04a(c *an.Ctx) {
